@@ -182,6 +182,18 @@ pub fn descriptions(seed: u64, thorough: bool) -> Vec<Desc> {
             v.push(d);
         }
     }
+    // 3b. FOpts far beyond the limit, around the sizes where a length kept in 8 bits (or in the 4-bit FOptsLen
+    // field) wraps: still refused, whatever the buffer could hold
+    for fl in [31usize, 32, 47, 240, 255, 256, 257, 260, 271, 272, 300, 511, 512, 520, 527] {
+        for port in [-1, 7] {
+            let mut d = base(&mut rng);
+            d.fopts = rnd_bytes(&mut rng, fl);
+            d.port = port;
+            d.frm = if port < 0 { vec![] } else { rnd_bytes(&mut rng, 3) };
+            d.buflen = 600;
+            v.push(d);
+        }
+    }
     // 4. ports x payload sizes around block boundaries; FOpts with port 0 (forbidden)
     for port in PORTS {
         for len in [0usize, 1, 15, 16, 17, 32, 33] {
